@@ -26,7 +26,7 @@ RULE = (
     "from random initial attribute sets (ICANON / ECHO / ISIG / IEXTEN / IXON / ICRNL / OPOST flags, VMIN, VTIME) "
     "on a real pty; outcomes: normal, time-out, predicate raising, and an exception (KeyboardInterrupt / OSError) "
     "raised before or after the k-th tcgetattr / tcsetattr / tcdrain / write / select / read -- and, for draw(), "
-    "every write / flush of the output stream, those of its clean-up included -- for ALL k (only the restoring "
+    "every write / flush of the output stream, those of its clean-up included, and the resource release in the drawn renderable's finalizer hook -- for ALL k (only the restoring "
     "tcsetattr itself, classified by stack walk at injection time, is excluded), plus a real SIGINT delivered "
     "while the main thread is parked in select; distinct = distinct (operation, initial-attribute class, fault "
     "position, exception kind) tuples"
@@ -173,6 +173,11 @@ class patched:
         rmod.termios = tp
         self.stdout = sys.stdout
         sys.stdout = StreamProxy(sys.stdout, self.s)
+        # the renderables drawn release a resource in their finalizer hook: one more
+        # boundary inside draw() (after the attributes have been put back, normally)
+        from .. import subjects
+
+        subjects.on_finalize = lambda: s.call("finalizer.close", lambda: None)
         return self
 
     def __exit__(self, *a):
@@ -181,6 +186,9 @@ class patched:
 
         utils.termios, utils.os, utils.select, rmod.termios = self.saved
         sys.stdout = self.stdout
+        from .. import subjects
+
+        subjects.on_finalize = None
 
 
 # ----------------------------------------------------------------------------- operations
